@@ -184,7 +184,15 @@ func (in *ncInterp) eval1(fr *ncFrame, v ssa.Value, depth int) *aval {
 			}
 		}
 		return in.fail("unbound parameter " + x.Name())
+	case *ssa.Index:
+		if r := in.stringIndex(fr, x.X, x.Index, depth); r != nil {
+			return r
+		}
+		return in.fail("index")
 	case *ssa.Lookup:
+		if r := in.stringIndex(fr, x.X, x.Index, depth); r != nil && x != in.lookup {
+			return r
+		}
 		if x == in.lookup {
 			if in.holderAbsent {
 				zero := &aval{fields: map[int]*aval{}}
@@ -325,6 +333,23 @@ func (in *ncInterp) eval1(fr *ncFrame, v ssa.Value, depth int) *aval {
 	return in.fail(fmt.Sprintf("value %T", v))
 }
 
+// stringIndex: s[i] for a known string and index (a byte).
+func (in *ncInterp) stringIndex(fr *ncFrame, sv, iv ssa.Value, depth int) *aval {
+	if b, ok := sv.Type().Underlying().(*types.Basic); !ok || b.Info()&types.IsString == 0 {
+		return nil
+	}
+	s, i := in.evalQuiet(fr, sv, depth-1), in.evalQuiet(fr, iv, depth-1)
+	if s == nil || i == nil || s.k == nil || i.k == nil || s.k.Kind() != constant.String || i.k.Kind() != constant.Int {
+		return nil
+	}
+	str := constant.StringVal(s.k)
+	n, ok := constant.Int64Val(i.k)
+	if !ok || n < 0 || int(n) >= len(str) {
+		return nil
+	}
+	return &aval{k: constant.MakeInt64(int64(str[n]))}
+}
+
 // evalQuiet evaluates without recording a failure (arguments that may never be needed).
 func (in *ncInterp) evalQuiet(fr *ncFrame, v ssa.Value, depth int) *aval {
 	saved := in.failed
@@ -457,8 +482,18 @@ func (in *ncInterp) run(fn *ssa.Function, args []*aval, start *ssa.BasicBlock, f
 				if !ok {
 					break
 				}
-				delete(fr.vals, phi)
-				phis[phi] = in.evalQuiet(fr, phi, 14)
+				// the value of the edge just taken, computed while the values of the previous visit (the phi's own
+				// among them: i = i + 1) are still there
+				var nv *aval
+				for i, p := range cur.Preds {
+					if p == fr.prev && i < len(phi.Edges) {
+						nv = in.evalQuiet(fr, phi.Edges[i], 14)
+					}
+				}
+				phis[phi] = nv
+			}
+			for p := range phis {
+				delete(fr.vals, p)
 			}
 			for _, ins := range cur.Instrs {
 				if v, ok := ins.(ssa.Value); ok {
@@ -844,6 +879,19 @@ func (in *ncInterp) pureLibCall(fr *ncFrame, key string, x *ssa.Call, depth int)
 					out.elems = append(out.elems, &aval{k: constant.MakeString(part)})
 				}
 				return out
+			}
+		}
+	case "strings.SplitN":
+		if s, ok := argStr(0); ok {
+			if sep, ok := argStr(1); ok {
+				if nv := in.evalQuiet(fr, x.Call.Args[2], depth-1); nv != nil && nv.k != nil && nv.k.Kind() == constant.Int {
+					n, _ := constant.Int64Val(nv.k)
+					out := &aval{isSlice: true}
+					for _, part := range strings.SplitN(s, sep, int(n)) {
+						out.elems = append(out.elems, &aval{k: constant.MakeString(part)})
+					}
+					return out
+				}
 			}
 		}
 	}
@@ -1272,6 +1320,7 @@ func ruleTagParserCases(c *Ctx, rule string) {
 		{"options/after-an-empty-one", `json:"a,,omitempty"`, []string{"omitempty"}},
 		{"options/no-name", `json:",omitzero"`, []string{"omitzero"}},
 		{"options/trailing-comma", `json:"a,omitempty,"`, []string{"omitempty"}},
+		{"options/three", `json:"a,string,omitempty,omitzero"`, []string{"omitempty", "omitzero", "string"}},
 	} {
 		_, _, opts, has, why := evalTagParserFull(c, tp, "F", true, false, []string{"string"}, k.tag)
 		if why != "" || !has {
@@ -1284,7 +1333,7 @@ func ruleTagParserCases(c *Ctx, rule string) {
 				got = append(got, o)
 			}
 		}
-		c.R.Check(strings.Join(got, ",") == strings.Join(k.want, ","), rule, core.FuncName(tp)+":"+k.label, c.P.Pos(tp.Pos()), "the options recorded are the non-empty elements after the name",
+		c.R.Check(strings.Join(got, "|") == strings.Join(k.want, "|"), rule, core.FuncName(tp)+":"+k.label, c.P.Pos(tp.Pos()), "the options recorded are the non-empty elements after the name",
 			fmt.Sprintf("for the tag %q the tag parser records the options %v; encoding/json honours %v (an empty element between commas does not end the list): an omitempty that is not recorded makes the field required although encoding/json leaves it out when empty", k.tag, got, k.want))
 	}
 	for i, k := range cases {
